@@ -109,6 +109,7 @@ func runC18(c *Ctx) {
 	checkCommitWalk(c)
 	checkBackingFileTruncated(c, "namespace.create.backing-file-empty")
 	checkCommitWalkerReleasesBeforeWaiting(c, "commit.walk.release-before-wait")
+	checkGenericErrorDiscipline(c, "pkg/fuse")
 }
 
 // fieldWrites lists writes (assign, op-assign, inc/dec) to the struct field with the given ID in a package.
